@@ -83,11 +83,12 @@ function payfail(to, amt) contract.send(to, amt); m["x"] = 1; error("boom after 
 function fail() m["y"] = 2; error("boom") end
 function guarded(to, amt) local ok = pcall(function() contract.send(to, amt); error("inner") end); m["g"] = (m["g"] or 0) + 1; return ok end
 function nested(other, to, amt) contract.call.value(amt)(other, "pay", to, amt) end
+function nestfail(other, k) contract.call(other, "inc", k); m["z"] = 3; error("boom after nested call") end
 function get() return cnt:get() end
 function default() end
 function check_delegation(fname, ...) return true end
 function fd(k) m[k] = 7 end
-abi.register(inc, pay, payfail, fail, guarded, nested, fd)
+abi.register(inc, pay, payfail, fail, guarded, nested, nestfail, fd)
 abi.register_view(get)
 abi.payable(default, pay, nested, constructor)
 abi.fee_delegation(fd)
@@ -110,7 +111,7 @@ func (g *Gen) Block(no uint64, n int) []*GTx {
 	if len(kinds) == 0 {
 		kinds = []string{"xfer", "xfer", "xfer", "xfer-new", "xfer-self", "xfer-zero", "xfer-poor", "xfer-all", "badnonce-low", "badnonce-gap",
 			"stake", "stake-small", "unstake", "votebp", "votebp-nostake", "votedao", "name", "name-dup", "name-update", "xfer-name",
-			"deploy", "call-inc", "call-pay", "call-payfail", "call-fail", "call-guarded", "call-nested", "call-default", "feedeleg", "gov-bad", "setowner"}
+			"deploy", "call-inc", "call-pay", "call-payfail", "call-fail", "call-guarded", "call-nested", "call-nestfail", "call-default", "feedeleg", "gov-bad", "setowner"}
 	}
 	blocked := map[int]bool{}
 	tries := 0
@@ -180,8 +181,9 @@ func (g *Gen) Block(no uint64, n int) []*GTx {
 		case "unstake":
 			sp.Type, sp.To = types.TxType_GOVERNANCE, []byte(types.AergoSystem)
 			sp.Payload = GovPayload("v1unstake")
-			sp.Amount = aergo(int64(1 + g.R.Intn(12000)))
-			exp = "fail"
+			// full unstakes of the common stake amounts, small partial ones, and arbitrary ones
+			sp.Amount = aergo([]int64{10000, 12000, int64(1 + g.R.Intn(2000)), int64(1 + g.R.Intn(12000))}[g.R.Intn(4)])
+			exp = "maybe"
 			desc = fmt.Sprintf("unstake a%d amt=%s", i, sp.Amount)
 		case "votebp", "votebp-nostake":
 			sp.Type, sp.To = types.TxType_GOVERNANCE, []byte(types.AergoSystem)
@@ -298,7 +300,7 @@ func (g *Gen) Block(no uint64, n int) []*GTx {
 			tx := sp.Build()
 			out = append(out, &GTx{Desc: desc, Kind: k, From: i, Expect: exp, Tx: tx})
 			continue
-		case "call-inc", "call-pay", "call-payfail", "call-fail", "call-guarded", "call-nested", "call-default", "feedeleg":
+		case "call-inc", "call-pay", "call-payfail", "call-fail", "call-guarded", "call-nested", "call-nestfail", "call-default", "feedeleg":
 			if len(g.Contracts) == 0 {
 				continue
 			}
@@ -326,6 +328,10 @@ func (g *Gen) Block(no uint64, n int) []*GTx {
 				sp.Payload = []byte(fmt.Sprintf(`{"Name":"nested","Args":[%q,%q,%q]}`, types.EncodeAddress(o.Addr), to, amt))
 				sp.Amount = big.NewInt(int64(g.R.Intn(1000)))
 				exp = "maybe"
+			case "call-nestfail":
+				o := g.Contracts[g.R.Intn(len(g.Contracts))]
+				sp.Payload = []byte(fmt.Sprintf(`{"Name":"nestfail","Args":[%q,"k%d"]}`, types.EncodeAddress(o.Addr), g.R.Intn(4)))
+				exp = "fail"
 			case "call-default":
 				sp.Type, sp.Amount, sp.Payload = types.TxType_TRANSFER, big.NewInt(int64(1+g.R.Intn(5000))), nil
 			case "feedeleg":
